@@ -303,3 +303,12 @@ def two_estimands(h):
 
 # the gaussian aggregate units live in C15 (which imports this module): loading it registers them under C03 / C02 as well
 import contracts.C15  # noqa: E402,F401
+
+# the unit table (reporting / unexpected / non-modelled units carry their counted votes as prediction and both bounds): the
+# ModelResultsHandler unit of contracts/C01.py, registered here as well
+import contracts.C01 as _c01  # noqa: E402,F401
+from pyvc.api import UNITS as _UNITS  # noqa: E402
+
+for _u in list(_UNITS.get("C01", [])):
+    if _u["name"] == "model_results.unit_table" and not any(x["name"] == "model_results.unit_table" for x in _UNITS.get("C03", [])):
+        _UNITS.setdefault("C03", []).append(dict(_u, prop="C03"))
